@@ -491,7 +491,11 @@ func applyOnce(c *wk.Case, what string, ctx *gtab.Context, in []glyph.Info, orde
 	}
 	c.Count("apply_calls", 1)
 	if len(out) > lengthCap {
-		c.Fail("output-length", what, "%s: %d glyphs in, %d glyphs out", what, len(in), len(out))
+		// Not judged: rules that replace one glyph by several and are applied
+		// again by nested lookups can legitimately grow the sequence
+		// geometrically; whether a given length is "within what the matched
+		// substitutions can produce" needs a reference shaper (C06).
+		c.Count("outputs_longer_than_1e6_glyphs_(not_judged)", 1)
 	}
 	if d := bagDiff(bag, textBag(out)); d != "" {
 		c.Fail("text-not-conserved", what, "%s on [%s]: %s; output [%s]", what, seqString(in), d, seqString(out))
